@@ -19,12 +19,30 @@ class Result:
 # --------------------------------------------------------------------------------------
 # single-arena families (GenArena / TraceArena)
 # --------------------------------------------------------------------------------------
+ALL8 = {"C01", "C02", "C03", "C04", "C05", "C06", "C07", "C08"}
 ARENA_FAMILIES = {
     # name: functions, scopes per tier, properties the family can witness
     "strcopy": dict(
-        fns=["strcpy_s", "strncpy_s", "strcat_s", "strncat_s"],
-        quick=dict(N=6, K=3, BosMode=0), thorough=dict(N=8, K=4, BosMode=0),
-        props={"C01", "C02", "C03", "C04", "C05", "C06", "C07", "C08"}),
+        fns=["strcpy_s", "strncpy_s", "strcat_s", "strncat_s", "stpcpy_s", "stpncpy_s",
+             "wcscpy_s", "wcsncpy_s", "wcscat_s", "wcsncat_s"],
+        quick=dict(N=6, K=3, BosMode=0), thorough=dict(N=8, K=4, BosMode=0), props=ALL8),
+    "strcopy_bos": dict(
+        fns=["strcpy_s", "strncpy_s", "strcat_s", "strncat_s", "stpcpy_s", "stpncpy_s",
+             "wcscpy_s", "wcsncpy_s", "wcscat_s", "wcsncat_s"],
+        quick=dict(N=4, K=2, BosMode=1), thorough=dict(N=5, K=3, BosMode=1), props={"C01", "C02", "C03", "C04", "C05", "C06"}),
+    "memcopy": dict(
+        fns=["memcpy_s", "memmove_s", "memcpy16_s", "memmove16_s", "memcpy32_s", "memmove32_s", "wmemcpy_s", "wmemmove_s", "memccpy_s"],
+        quick=dict(N=6, K=3, BosMode=0), thorough=dict(N=9, K=5, BosMode=0), props={"C01", "C02", "C04", "C05", "C06", "C07"}),
+    "memcopy_bos": dict(
+        fns=["memcpy_s", "memmove_s", "memcpy16_s", "memmove16_s", "memcpy32_s", "memmove32_s", "wmemcpy_s", "wmemmove_s"],
+        quick=dict(N=5, K=2, BosMode=1), thorough=dict(N=6, K=3, BosMode=1), props={"C01", "C02", "C04", "C05", "C06", "C07"}),
+    "fill": dict(
+        fns=["memset_s", "memset16_s", "memset32_s", "memzero_s", "memzero16_s", "memzero32_s",
+             "strzero_s", "strset_s", "strnset_s", "wcsset_s", "wcsnset_s"],
+        quick=dict(N=6, K=3, BosMode=0), thorough=dict(N=8, K=5, BosMode=1), props={"C01", "C02", "C03", "C05", "C06", "C08"}),
+    "xform": dict(
+        fns=["strtolowercase_s", "strtouppercase_s", "wcslwr_s", "wcsupr_s", "strljustify_s", "strremovews_s", "strnterminate_s"],
+        quick=dict(N=6, K=3, BosMode=0), thorough=dict(N=8, K=4, BosMode=1), props={"C01", "C02", "C03", "C05", "C06"}),
 }
 
 
@@ -102,7 +120,7 @@ def run_arena(prop, tier, seed, workdir, families=None):
     return res
 
 
-NO_SRC = set()
+NO_SRC = set(ARENA_FAMILIES['fill']['fns'] + ARENA_FAMILIES['xform']['fns'])
 
 ENGINES = {}
 for _p in ("C01", "C02", "C03", "C04", "C05", "C06", "C07", "C08"):
